@@ -24,8 +24,9 @@ package ldb
 //@   ensures bytesEq(result, b.pathLen + 1, key, 0, len(key))
 
 // D3: the write batch as an overlay log.  wfBatch: maps allocated, every put entry non-nil, sequence numbers
-// never exceed seqNo (so a later operation always has the larger number).
-//@ define wfBatch(b) = (b != nil && b.puts != nil && b.deletes != nil && (forall qs_ string :: has(b.puts, qs_) ==> b.puts[qs_] != nil && b.puts[qs_].seq <= b.seqNo) && (forall qs_ string :: has(b.deletes, qs_) ==> b.deletes[qs_] <= b.seqNo))
+// never exceed seqNo (so a later operation always has the larger number), a put and a delete of one key never
+// carry the same number.
+//@ define wfBatch(b) = (b != nil && b.puts != nil && b.deletes != nil && (forall qs_ string :: has(b.puts, qs_) ==> b.puts[qs_] != nil && b.puts[qs_].seq <= b.seqNo) && (forall qs_ string :: has(b.deletes, qs_) ==> b.deletes[qs_] <= b.seqNo && (has(b.puts, qs_) ==> b.deletes[qs_] != b.puts[qs_].seq)))
 //@ define isDeleted(b, s) = (has(b.deletes, s) && (!has(b.puts, s) || b.deletes[s] > b.puts[s].seq))
 //@ define isPut(b, s) = (has(b.puts, s) && (!has(b.deletes, s) || b.deletes[s] <= b.puts[s].seq))
 
